@@ -47,6 +47,8 @@ type wtr struct {
 	pkg *packages.Package
 	// name of the receiver variable and of the env record in the emitted Lean
 	recv string
+	// the `if w.timer == nil {NewTimer(d)} else {Reset(d)}` statement of Wait, once seen
+	armStmt *ast.IfStmt
 }
 
 func (x *wtr) fail(n ast.Node, format string, a ...any) string {
@@ -252,7 +254,8 @@ func (x *wtr) block(stmts []ast.Stmt, ind string) string {
 			break
 		}
 		if _, ok := x.timerArm(v); ok {
-			return ind + "-- " + x.src(v.Cond) + ": NewTimer / Reset: the timer is armed\n" + x.block(rest, ind)
+			x.armStmt = v
+			return ind + "-- " + x.src(v.Cond) + ": NewTimer / Reset: the timer is armed for `timerArmedFor waitFor`\n" + x.block(rest, ind)
 		}
 		if v.Else == nil && len(v.Body.List) > 0 {
 			if _, ok := v.Body.List[len(v.Body.List)-1].(*ast.ReturnStmt); ok {
@@ -290,6 +293,14 @@ func waiterExtra(t *tr) string {
 		x.recv = fd.Recv.List[0].Names[0].Name
 		b.WriteString("/-- regenerated from `core/coreutil/waiter.go` method `(*Waiter).Wait` -/\n")
 		b.WriteString("def Wait (" + x.recv + " : Waiter) (e : Env) : Waiter × Bool :=\n" + x.block(fd.Body.List, "  ") + "\n\n")
+		if x.armStmt != nil {
+			// the duration both NewTimer and Reset are called with, as a function of the local waitFor
+			call := x.armStmt.Body.List[0].(*ast.AssignStmt).Rhs[0].(*ast.CallExpr)
+			b.WriteString("/-- regenerated from `(*Waiter).Wait`: the duration the timer is armed for (NewTimer and Reset alike) -/\n")
+			b.WriteString("def timerArmedFor (waitFor : Int) : Int := " + x.expr(call.Args[0]) + "\n\n")
+		} else {
+			t.errs = append(t.errs, "(*Waiter).Wait: timer arming statement not found")
+		}
 	} else {
 		t.errs = append(t.errs, "method (*Waiter).Wait not found")
 	}
